@@ -48,7 +48,7 @@ theorem nat_eq (b : EVal) : eq .nat b = true ↔ b = .nat := by
   cases b <;> simp [eq, EVal.norm, eqN]
 
 /-- a duration (`timedelta`, `pd.Timedelta`, `np.timedelta64` in the units pandas holds: W, D, h, m, s, ms, us, ns - NOT years / months,
-see `cdelta_eq`, and not ps / fs / as, which have no wire spelling) equals exactly the same duration: never a number
+see `cdelta_eq`, and not ps / fs / as, see `ftd_eq`) equals exactly the same duration: never a number
 (numpy's own `np.timedelta64(1, 'D') == 1` is gone with C14-F6), never a container -/
 theorem tdelta_eq (d : Int) (b : EVal) : eq (.tdelta d) b = true ↔ b = .tdelta d := by
   cases b <;> simp [eq, EVal.norm, eqN] <;> exact eq_comm
@@ -81,7 +81,8 @@ theorem date_eq (d : Int) (b : EVal) : eq (.date d) b = true ↔ b = .date d := 
 
 /-- type strictness: `eq` is False whenever the container types differ — list vs tuple vs array vs
 Series vs DataFrame vs dict, a dict vs a dict subclass (or two different subclasses), and a scalar
-vs any container (`EVal.kind` = constructor and dict class). -/
+vs any container (`EVal.kind` = constructor and dict class; k5: a list / tuple SUBCLASS instance - namedtuple - vs the plain list / tuple and vs another
+subclass (`kind = (7, cls)`), a `pd.Index` vs the list / array / Series of its labels). -/
 theorem eq_type_strict (a b : EVal) (h : a.kind ≠ b.kind) : eq a b = false := by
   cases hab : eq a b
   · rfl
@@ -352,5 +353,91 @@ theorem primitives_raise :
     veqShape [0, 3] [0, 3] = .error .value ∧ unzipR ([] : List (String × Nat)) = .error .value := by
   decide
 
+
+/-! ## k5: values the model could not spell so far - fine `np.timedelta64`, list / tuple SUBCLASSES (namedtuples), `pd.Index` as a value -/
+
+/-- an `np.timedelta64` in `ps` / `fs` / `as` (`ftd a` = the duration in attoseconds; repaired with C14-F9, spelled on the wire since k5) equals exactly the
+fine `np.timedelta64` of the same duration: never a `timedelta` / `pd.Timedelta` / coarser `np.timedelta64` (`1000 ps` is not `eq` to `1 ns`: pandas holds the one,
+not the other), never a year / month duration, never the number that counts it, never a fine `np.datetime64` -/
+theorem ftd_eq (a : Int) (b : EVal) : eq (.ftd a) b = true ↔ b = .ftd a := by
+  cases b <;> simp [eq, EVal.norm, eqN] <;> exact eq_comm
+
+example : eq (.ftd (1000000 * 1)) (.ftd (1000 * 1000)) = true ∧ eq (.ftd 1000000000) (.tdelta 0) = false ∧ eq (.ftd 0) (.tdelta 0) = false
+    ∧ eq (.ftd 1) (.cell (.int 1)) = false ∧ eq (.cell (.int 1)) (.ftd 1) = false ∧ eq (.ftd 0) (.cdelta 0) = false ∧ eq (.ftd 0) (.fdt 0) = false
+    ∧ eq (.arr [1] [.ftd 1000000]) (.arr [1] [.ftd 1000000]) = true ∧ eq (.arr [1] [.ftd 1]) (.arr [1] [.cell (.int 1)]) = false := by decide
+
+/-- instances of list / tuple subclasses (namedtuples, `class L(list)`): the unfolding equation - same class, same length, all elements `eq` -/
+theorem eq_sub (c d : Nat) (xs ys : List EVal) : eq (.sub c xs) (.sub d ys) = (c == d && all2 eq xs ys) := by
+  simp only [eq, EVal.norm, eqN, eqArr_normList]; rfl
+
+/-- **list / tuple subclasses, as an iff through observations**: an instance of subclass `c` is `eq` to exactly the instances of THE SAME class with
+the same length and an `eq` element at every position - never to a plain list or tuple holding the same elements (`eq(P(1,2), (1,2))` is False although
+python's `==` is True), never to an instance of another subclass, an array, a scalar. -/
+theorem eq_sub_iff (c : Nat) (xs : List EVal) (b : EVal) :
+    eq (.sub c xs) b = true ↔ ∃ ys, b = .sub c ys ∧ xs.length = ys.length ∧ ∀ k (h1 : k < xs.length) (h2 : k < ys.length), eq xs[k] ys[k] = true := by
+  cases b <;> try (simp [eq, EVal.norm, eqN]; done)
+  rename_i d ys
+  rw [eq_sub, Bool.and_eq_true, beq_iff_eq, all2_iff_get]
+  constructor
+  · rintro ⟨rfl, h⟩; exact ⟨ys, rfl, h⟩
+  · rintro ⟨ys', he, h⟩; cases he; exact ⟨rfl, h⟩
+
+/-- the same for the plain containers (the clause "False whenever container types differ (list vs tuple ...)" as an iff) -/
+theorem eq_list_iff (xs : List EVal) (b : EVal) :
+    eq (.list xs) b = true ↔ ∃ ys, b = .list ys ∧ xs.length = ys.length ∧ ∀ k (h1 : k < xs.length) (h2 : k < ys.length), eq xs[k] ys[k] = true := by
+  cases b <;> try (simp [eq, EVal.norm, eqN]; done)
+  rename_i ys
+  rw [eq_list, all2_iff_get]
+  constructor
+  · intro h; exact ⟨ys, rfl, h⟩
+  · rintro ⟨ys', he, h⟩; cases he; exact h
+
+theorem eq_tuple_iff (xs : List EVal) (b : EVal) :
+    eq (.tuple xs) b = true ↔ ∃ ys, b = .tuple ys ∧ xs.length = ys.length ∧ ∀ k (h1 : k < xs.length) (h2 : k < ys.length), eq xs[k] ys[k] = true := by
+  cases b <;> try (simp [eq, EVal.norm, eqN]; done)
+  rename_i ys
+  rw [eq_tuple, all2_iff_get]
+  constructor
+  · intro h; exact ⟨ys, rfl, h⟩
+  · rintro ⟨ys', he, h⟩; cases he; exact h
+
+-- a namedtuple `P(1, nan)` (class 1): eq to a copy with another NaN object and with `1.0` for `1`, not to the tuple, not to `Q(1, nan)` (class 2),
+-- not to the list subclass instance (class 3); an empty list-subclass instance is not the empty list
+example : eq (.sub 1 [.cell (.int 1), .cell .nan]) (.sub 1 [.cell (.flt 4), .cell .nan]) = true
+    ∧ eq (.sub 1 [.cell (.int 1), .cell .nan]) (.tuple [.cell (.int 1), .cell .nan]) = false
+    ∧ eq (.tuple [.cell (.int 1), .cell .nan]) (.sub 1 [.cell (.int 1), .cell .nan]) = false
+    ∧ eq (.sub 1 [.cell (.int 1), .cell .nan]) (.sub 2 [.cell (.int 1), .cell .nan]) = false
+    ∧ eq (.sub 3 []) (.list []) = false ∧ eq (.sub 3 []) (.sub 3 []) = true ∧ eq (.sub 3 []) (.sub 4 []) = false
+    ∧ eq (.sub 1 [.cell (.int 1)]) (.sub 1 [.cell (.int 1), .cell (.int 2)]) = false := by decide
+
+/-- a `pd.Index` as a value: the unfolding equation - the labels one by one (NaN-aware; a string label is no datetime label) -/
+theorem eq_index (i j : List Cell) : eq (.index i) (.index j) = idxEq i j := by
+  simp only [eq, EVal.norm, eqN]
+
+/-- **`pd.Index` as a value, as an iff**: an Index is `eq` to exactly the Index objects with the same number of labels and the same label at every position
+(`LabelsSame`: NaN with NaN, otherwise python `==`) - never to the list, tuple, array or Series of its labels, never to a scalar.  The SUBCLASS of the Index
+(`RangeIndex`, `DatetimeIndex`, ...) is not part of the value: the branch tests `isinstance(y, pd.Index)`, which is what makes a Series over a `RangeIndex`
+`eq` to the same Series over `Index([0, 1, ...])`. -/
+theorem eq_index_iff (i : List Cell) (b : EVal) : eq (.index i) b = true ↔ ∃ j, b = .index j ∧ LabelsSame i j := by
+  cases b <;> try (simp [eq, EVal.norm, eqN]; done)
+  rename_i j
+  rw [eq_index, idxEq_iff]
+  constructor
+  · intro h; exact ⟨j, rfl, h⟩
+  · rintro ⟨j', he, h⟩; cases he; exact h
+
+/-- two Series / two DataFrames are `eq` only if their axes are `eq` AS VALUES: the axis comparison inside the pandas branch is the `pd.Index` branch -/
+theorem eq_series_index (i j : List Cell) (xs ys : List EVal) (h : eq (.series i xs) (.series j ys) = true) : eq (.index i) (.index j) = true := by
+  rw [eq_series, Bool.and_eq_true] at h; rw [eq_index]; exact h.1
+
+theorem eq_frame_index (i j c d : List Cell) (xs ys : List EVal) (h : eq (.frame i c xs) (.frame j d ys) = true) :
+    eq (.index i) (.index j) = true ∧ eq (.index c) (.index d) = true := by
+  rw [eq_frame, Bool.and_eq_true, Bool.and_eq_true] at h; rw [eq_index, eq_index]; exact h.1
+
+example : eq (.index [.int 1, .nan]) (.index [.flt 4, .nan]) = true ∧ eq (.index [.int 1]) (.list [.cell (.int 1)]) = false
+    ∧ eq (.list [.cell (.int 1)]) (.index [.int 1]) = false ∧ eq (.index [.int 1]) (.arr [1] [.cell (.int 1)]) = false
+    ∧ eq (.index [.int 0]) (.series [.int 0] [.cell (.int 0)]) = false ∧ eq (.cell (.int 1)) (.index [.int 1]) = false
+    ∧ eq (.index []) (.index []) = true ∧ eq (.index [.int 1, .int 2]) (.index [.int 1]) = false
+    ∧ eq (.index [.str "2020-01-01"]) (.index [.dt 63713433600000000]) = false := by decide
 
 end Pyg.Props.C14
